@@ -122,7 +122,73 @@ func parseI64(s string) (int64, bool) {
 	return v, err == nil
 }
 
+// termsApplied: a successful call / context update takes effect — the terms the consumer named are the terms in
+// force afterwards (C06 speaks of "the cap in force", "the providers named in the context", "the context's timeout").
+func termsApplied(x *Exec, r *StepRec) {
+	if r.Kind == "msg" && (r.Msg.T == "bind" || r.Msg.T == "update") && r.Msg.QoS != 0 {
+		// the committed response time is the one the owner's successful message named
+		if b, ok := r.Post.Bindings[bkey(r.Msg.Svc, resolveAddr(r.Msg.Prov))]; ok && b.QoS != r.Msg.QoS {
+			x.viol("C06", "terms_not_applied", fmt.Sprintf("height %d: %s succeeded but the binding's committed response time is %d, not %d", r.Post.Height, r.Msg.T, b.QoS, r.Msg.QoS), map[string]string{"msg": r.Msg.T, "field": "qos"})
+			return
+		}
+	}
+	if r.Kind != "msg" || (r.Msg.T != "updctx" && r.Msg.T != "call") {
+		return
+	}
+	m := r.Msg
+	var id string
+	if m.T == "updctx" {
+		id = x.namedCtx(r)
+	} else {
+		if x.cfg.ModuleService && m.Svc == types.OraclePriceServiceName {
+			return
+		}
+		for _, cid := range r.Post.CtxIDs() {
+			if _, old := r.Pre.Ctx[cid]; !old {
+				id = cid
+			}
+		}
+	}
+	qc, ok := r.Post.Ctx[id]
+	if !ok {
+		return
+	}
+	bad := func(what string) {
+		x.viol("C06", "terms_not_applied", fmt.Sprintf("height %d: %s by %s succeeded but the context's %s is not the one named in the message", r.Post.Height, m.T, r.Tx.Sender, what), map[string]string{"msg": m.T, "field": what})
+	}
+	if len(m.Providers) > 0 {
+		want := resolveAddrs(m.Providers)
+		same := len(want) == len(qc.Providers)
+		for i := 0; same && i < len(want); i++ {
+			same = bytes.Equal(want[i], qc.Providers[i])
+		}
+		if !same {
+			bad("provider list")
+			return
+		}
+	}
+	if c := parseCoins(m.FeeCap); !c.Empty() && !c.IsEqual(qc.ServiceFeeCap) {
+		bad("fee cap")
+		return
+	}
+	if m.Timeout > 0 && qc.Timeout != m.Timeout {
+		bad("timeout")
+		return
+	}
+	if m.T == "updctx" {
+		if m.Freq > 0 && qc.RepeatedFrequency != m.Freq {
+			bad("frequency")
+			return
+		}
+		if m.Total != 0 && qc.RepeatedTotal != m.Total {
+			bad("total")
+			return
+		}
+	}
+}
+
 func oracleC06(x *Exec, r *StepRec) {
+	termsApplied(x, r)
 	if r.Kind != "end" {
 		return
 	}
@@ -229,6 +295,13 @@ func whyIneligible(c *types.RequestContext, post *Snap, p string) string {
 }
 
 func oracleC07(x *Exec, r *StepRec) {
+	if r.Kind == "msg" && (r.Msg.T == "bind" || r.Msg.T == "update") && r.Msg.Pricing != "" {
+		// the published pricing is what the owner's successful message named
+		if b, ok := r.Post.Bindings[bkey(r.Msg.Svc, resolveAddr(r.Msg.Prov))]; ok && b.Pricing != r.Msg.Pricing {
+			x.viol("C07", "pricing_not_published", fmt.Sprintf("height %d: %s succeeded but the binding still publishes %s, not %s", r.Post.Height, r.Msg.T, b.Pricing, r.Msg.Pricing), nil)
+			return
+		}
+	}
 	if r.Kind != "end" && !(r.Kind == "msg" && r.Msg.T == "call") {
 		return
 	}
